@@ -188,7 +188,25 @@ impl Game {
                 [file @ b'a'..=b'h', rank] if *rank == expected_rank => (*file - b'a') as i8,
                 _ => bail!("Invalid en passant square"),
             };
-            state.set_en_passant(col);
+
+            // Same rule as in push: the file is only recorded if an enemy pawn could capture,
+            // so that a position hashes the same whether it was played or loaded
+            let pawn_row = match current_player {
+                Player::White => 4,
+                Player::Black => 3,
+            };
+            let capturing_pawn_exists = [col - 1, col + 1]
+                .into_iter()
+                .filter_map(|side_col| Position::new(pawn_row, side_col))
+                .any(|position| {
+                    board[position.as_usize()].is_some_and(|p: Piece| {
+                        p.piece_type == PieceType::Pawn && p.owner == current_player
+                    })
+                });
+
+            if capturing_pawn_exists {
+                state.set_en_passant(col);
+            }
         }
 
         let Some(white_king_pos) = white_king_pos else {
